@@ -170,6 +170,31 @@ let () =
           Buffer.add_string buf (Printf.sprintf " %d:%s" (if sel_empty !sel then 1 else 0) (String.concat "," l))
         done;
         output_string oc (Buffer.contents buf ^ "\n")
+    | [ "NUM"; ci; n; k ] ->
+        (* one number / time relation filter on the model *)
+        let k = int_of_string k in
+        let subs = List.init k (fun _ ->
+            let vals = match next () with "vals" :: xs -> List.map (fun x -> z_of_int (int_of_string x)) xs | _ -> failwith "vals line" in
+            let init = match next () with "init" :: xs -> List.map (fun x -> nat_of_int (int_of_string x)) xs | _ -> failwith "init line" in
+            (vals, init)) in
+        let inits = Array.of_list (List.map snd subs) in
+        let m0 : nat -> nat list = fun q -> let i = int_of_nat q in if i < k then inits.(i) else [] in
+        let sqs = List.init k nat_of_int in
+        let datas = List.map (fun (vals, _) -> group_values vals) subs in
+        let sel', ok = number_filter (z_of_int (int_of_string n)) sqs datas [ m0 ] in
+        if not ok then output_string oc (Printf.sprintf "N %s 0:\n" ci)
+        else begin
+          let combos = Hashtbl.create 16 in
+          List.iter (fun m ->
+              let cur = ref [ "" ] in
+              for i = 0 to k - 1 do
+                let set = List.sort_uniq compare (List.map int_of_nat (m (nat_of_int i))) in
+                cur := List.concat_map (fun pre -> List.map (fun x -> Printf.sprintf "%s.%d" pre x) set) !cur
+              done;
+              List.iter (fun x -> Hashtbl.replace combos x ()) !cur) sel';
+          let l = List.sort compare (Hashtbl.fold (fun k () acc -> k :: acc) combos []) in
+          output_string oc (Printf.sprintf "N %s 1:%s\n" ci (String.concat "," l))
+        end
     | [] -> ()
     | l -> failwith ("unexpected line: " ^ String.concat " " l)
   done;
